@@ -204,8 +204,8 @@ def _mc_cfg(ctx, base, consts):
     return path
 
 
-def _design(ctx, cfgs_path):
-    consts = {} if ctx.quick else {"MaxSteps": 3}
+def _design(ctx, cfgs_path, dv):
+    consts = {} if ctx.quick else {"MaxSteps": 3, "D": dv}
     main = vlib.tlc("PhysSelectMC", _mc_cfg(ctx, "PhysSelectMC", consts), workers=4, timeout=6000, heap="6g",
                     env={"CFGS": cfgs_path}, coverage=not ctx.quick)
     if main.ok and not ctx.quick:
@@ -315,7 +315,8 @@ def run(ctx):
     mut_path = ctx.path("cfgs_hand.json")
     with open(mut_path, "w") as fh:
         json.dump(_hand_configs(), fh)
-    main, scen = _design(ctx, cfgs_path)
+    dv = D if q else 16      # uniforms a/dv
+    main, scen = _design(ctx, cfgs_path, dv)
     vlib.log("X07 design check: %d states, %d transitions, %d scenarios, %.0fs"
              % (main.distinct, main.generated, len(scen), time.time() - t0))
     if ctx.violations:
@@ -325,17 +326,21 @@ def run(ctx):
 
     # ------------------------------------------------------------------ harness runs
     t0 = time.time()
-    nsh = 3 if q else 4
+    nsh = 4
     byc = {}
     for s in scen:
         byc.setdefault(s["c"], []).append(s)
+    # balance the shards by the number of selections
     shards = [[] for _ in range(nsh)]
-    for i, c in enumerate(cfgs):
-        shards[i % nsh].append(c)
+    load = [0] * nsh
+    for c in sorted(cfgs, key=lambda c: -sum(len(x["sel"]) for x in byc.get(c["id"], []))):
+        k = load.index(min(load))
+        shards[k].append(c)
+        load[k] += 1 + sum(len(x["sel"]) for x in byc.get(c["id"], []))
     jobs = []
     for i, sh in enumerate(shards):
         ids = {c["id"] for c in sh}
-        jobs.append(("api", "api%02d" % i, {"D": D, "LS": LS, "cfgs": sh,
+        jobs.append(("api", "api%02d" % i, {"D": dv, "LS": LS, "cfgs": sh,
                                             "scen": [s for cid in sorted(ids) for s in byc.get(cid, [])]}))
     lruns = _loop_runs(ctx.seed, 10 if q else 120)
     nls = 2 if q else 8
@@ -362,8 +367,9 @@ def run(ctx):
         if not names:
             raise vlib.Broken("vacuity guard: design mutant %s was not refuted (exit %d)\n%s" % (v, r.code, r.out[-1500:]))
         refuted[v] = names[0]
+    vlib.log("X07 trace validation + design mutants %s: %.0fs (per job %s)"
+             % (refuted, time.time() - t0, " ".join("%.0f" % r.wall for r in results)))
     results = results[:len(outs)]
-    vlib.log("X07 trace validation + design mutants %s: %.0fs" % (refuted, time.time() - t0))
     stat, cnt = {}, {}
     samples = []
     for (mode, name, payload), path, r in zip(jobs, outs, results):
@@ -416,7 +422,7 @@ def run(ctx):
                 "with floating-point-exact numbers emitted by that run and EVERY selection input reachable from it is "
                 "replayed on the real PhysicsParams/PhysicsTrackView/PhysicsStepUtils; loop = seeded runs of the real "
                 "stepping loop; evaluations = selections + pre-steps + loop track-steps validated by TLC; "
-                "distinct_nontrivial = distinct replayed pre-step scenarios" % D,
+                "distinct_nontrivial = distinct replayed pre-step scenarios" % dv,
         "exhaustive": True,
         "configurations": len(cfgs), "scenarios_replayed": len(scen), "selections_replayed": nsel,
         "loop_runs": len(lruns), "impl_stats": stat, "clause_counts": cnt, "design_mutants_refuted": refuted,
@@ -428,7 +434,7 @@ def run(ctx):
         "return the tabulated integers exactly; the harness counts inexact values and the spec demands zero); "
         "min_range 1e6 cm or max_step_over_range 1 make range_to_step the identity (its formula is C14's subject)",
         "uniforms a/%d (a=%d: largest double below one) enter through a scripted 32-bit engine and the production "
-        "GenerateCanonical32" % (D, D),
+        "GenerateCanonical32" % (dv, dv),
         "precondition XsWithinModels (PhysSelect.tla): a process' cross section vanishes at every track energy outside its "
         "model ranges; selections that would find no model (NoModelOnlyAtEdge) are not replayed (undefined behaviour in a "
         "release build)",
